@@ -331,6 +331,32 @@ def _show(v: Any) -> str:
     return repr(v)
 
 
+def minmax_to_ite(p: Any) -> Any:
+    """max(a, b) / min(a, b) applications rewritten as conditional terms
+    (also inside the branches and tests of conditional terms), so that the
+    case analysis can resolve them."""
+    from sa.symterm import ite
+    if is_cond(p):
+        return (p[0],) + tuple(minmax_to_ite(x) for x in p[1:])
+    if not isinstance(p, Poly):
+        return p
+    sub = {}
+    for a in p.atoms():
+        if a[0] == "app" and a[1] in ("max", "min") and len(a[2]) >= 2:
+            args = [minmax_to_ite(x) for x in a[2]]
+            cur = args[0]
+            for nx in args[1:]:
+                cur = ite(("lt", cur, nx), nx, cur) if a[1] == "max" \
+                    else ite(("lt", nx, cur), nx, cur)
+            sub[a] = cur
+        elif a[0] == "ite":
+            new = ite(minmax_to_ite(a[1]), minmax_to_ite(a[2]),
+                      minmax_to_ite(a[3]))
+            if not (isinstance(new, Poly) and new.as_atom() == a):
+                sub[a] = new
+    return p.subst(sub) if sub else p
+
+
 def _atoms_deep(p: Poly) -> set:
     """The atoms occurring as factors of the monomials of `p`."""
     out = set()
@@ -345,4 +371,5 @@ def describe(trail: tuple) -> str:
                         for c, t in trail) or "always"
 
 
-__all__ = ["Splitter", "describe", "equivalent", "is_cond", "show"]
+__all__ = ["Splitter", "describe", "equivalent", "is_cond",
+           "minmax_to_ite", "show"]
